@@ -1,90 +1,473 @@
+(* C19 — the lock-file protocol of the repository cache.
+   Transcribes cache/repo_cache.go (lock = repoIsAvailable ; Create ; Write, Close), util/process.IsRunning,
+   and the command wrapper of commands/execenv/loading.go (LoadBackend / LoadBackendEnsureUser / CloseBackend),
+   the interrupt cleaner (util/interrupt) and the webui command's own teardown.
+   Processes are numbers. The lock file is absent, holds a pid, or is "torn": created but still empty.
+   The code writes the pid to a temporary file and renames it (Create, then Write = rename), so no step of the
+   protocol produces a torn lock; an empty lock file found on disk is cleaned like a stale one. The pinned tree
+   created the lock file in place and wrote the pid in a second step, and took an empty file for an error: those
+   two steps are kept as TestPinned / CreatePinned for the refutations. *)
 From Coq Require Import List Arith Bool Lia.
 Import ListNotations.
 
-(* processes are numbers; the lock file holds a pid or is absent *)
-Record st := { lockf : option nat; dead : list nat; holders : list nat; ready : list nat (* passed the test, not yet written *) }.
-Definition st0 := {| lockf := None; dead := []; holders := []; ready := [] |}.
+Inductive lockc := LPid (p : nat) | LTorn.
+
+Record st := mkst {
+  lockf : option lockc;     (* .git/git-bug/lock *)
+  dead : list nat;          (* processes that are gone (exited, killed); a pid is never reused *)
+  holders : list nat;       (* processes whose RepoCache is open (lock() returned nil, Close not yet run) *)
+  ready : list nat;         (* passed repoIsAvailable, file not yet created *)
+  created : list nat        (* wrote the temporary file, not yet renamed (pinned: created the empty lock file) *)
+}.
+Definition st0 := mkst None [] [] [] [].
 Definition mem (p : nat) (l : list nat) := existsb (Nat.eqb p) l.
 Definition rm (p : nat) (l : list nat) := filter (fun x => negb (Nat.eqb x p)) l.
 
-Inductive ev := Test (p : nat) | Write (p : nat) | Close (p : nat) | Kill (p : nat).
-Inductive out := Granted | Refused (holder : nat) | Done | Ignored.
+Inductive ev := Test (p : nat) | Create (p : nat) | Write (p : nat) | Close (p : nat) | Kill (p : nat) | Fail (p : nat)
+              | TestPinned (p : nat) | CreatePinned (p : nat).
+Inductive out := Granted | Refused (holder : nat) | Corrupt | Done | Ignored.
 
-(* repoIsAvailable (Test) followed by the lock write (Write), as two separate steps like in repo_cache.go *)
+(* RepoCache.Close as called by a process that holds the cache: the lock file is removed *)
+Definition close1 (s : st) (p : nat) : st * out :=
+  if mem p (holders s) then (mkst None (dead s) (rm p (holders s)) (ready s) (created s), Done) else (s, Ignored).
+(* the process is gone without running any cleanup (SIGKILL, crash, or os.Exit on a path that does not close) *)
+Definition kill1 (s : st) (p : nat) : st * out :=
+  (mkst (lockf s) (p :: dead s) (rm p (holders s)) (rm p (ready s)) (rm p (created s)), Done).
+(* RepoCache.Close as written in the code, called by a process that does NOT hold: the file is removed unconditionally *)
+Definition unlink (s : st) : st := mkst None (dead s) (holders s) (ready s) (created s).
+
+(* repoIsAvailable (Test), then Create (temporary file), then Write (rename): three separate steps, as in repo_cache.go *)
+Definition test_free (s : st) (p : nat) : st * out := (mkst None (dead s) (holders s) (p :: ready s) (created s), Granted).
 Definition step (s : st) (e : ev) : st * out :=
   match e with
   | Test p =>
       match lockf s with
-      | None => ({| lockf := None; dead := dead s; holders := holders s; ready := p :: ready s |}, Granted)
-      | Some q => if mem q (dead s)
-                  then ({| lockf := None; dead := dead s; holders := holders s; ready := p :: ready s |}, Granted) (* stale lock cleaned *)
-                  else (s, Refused q)
+      | None => test_free s p
+      | Some (LPid q) => if mem q (dead s) then test_free s p (* stale lock cleaned *) else (s, Refused q)
+      | Some LTorn => test_free s p                            (* empty lock file: nobody holds it, cleaned *)
       end
-  | Write p => if mem p (ready s)
-               then ({| lockf := Some p; dead := dead s; holders := p :: holders s; ready := rm p (ready s) |}, Done)
+  | Create p => if mem p (ready s)
+                then (mkst (lockf s) (dead s) (holders s) (rm p (ready s)) (p :: created s), Done)
+                else (s, Ignored)
+  | Write p => if mem p (created s)
+               then (mkst (Some (LPid p)) (dead s) (p :: holders s) (ready s) (rm p (created s)), Done)
                else (s, Ignored)
-  | Close p => if mem p (holders s)
-               then ({| lockf := None; dead := dead s; holders := rm p (holders s); ready := ready s |}, Done)
-               else (s, Ignored)
-  | Kill p => ({| lockf := lockf s; dead := p :: dead s; holders := rm p (holders s); ready := rm p (ready s) |}, Done)
+  | Close p => close1 s p
+  | Kill p => kill1 s p
+  | Fail p => kill1 (fst (close1 s p)) p      (* an error path that cleans up: close if open, then exit *)
+  | TestPinned p =>
+      match lockf s with
+      | None => test_free s p
+      | Some (LPid q) => if mem q (dead s) then test_free s p else (s, Refused q)
+      | Some LTorn => (s, Corrupt)                              (* strconv.Atoi("") fails *)
+      end
+  | CreatePinned p => if mem p (ready s)
+                then (mkst (Some LTorn) (dead s) (holders s) (rm p (ready s)) (p :: created s), Done)
+                else (s, Ignored)
   end.
+Definition fixed_ev (e : ev) : bool := match e with TestPinned _ | CreatePinned _ => false | _ => true end.
 
-(* the atomic open: test and write with nothing in between *)
+Definition run_from (s : st) (es : list ev) := fold_left (fun s e => fst (step s e)) es s.
+Definition run (es : list ev) := run_from st0 es.
+
+(* ---------- the atomic open: the three steps with nothing in between ---------- *)
 Definition open_atomic (s : st) (p : nat) : st * out :=
-  match snd (step s (Test p)) with
-  | Granted => (fst (step (fst (step s (Test p))) (Write p)), Granted)
-  | o => (fst (step s (Test p)), o)
+  match step s (Test p) with
+  | (s1, Granted) => (fst (step (fst (step s1 (Create p))) (Write p)), Granted)
+  | (s1, o) => (s1, o)
   end.
-Definition granted (s : st) (p : nat) := {| lockf := Some p; dead := dead s; holders := p :: holders s; ready := [] |}.
+Definition granted (s : st) (p : nat) := mkst (Some (LPid p)) (dead s) (p :: holders s) [] [].
 
-Inductive aev := AOpen (p : nat) | AClose (p : nat) | AKill (p : nat).
+(* p performs the first k sub-steps of its open and dies there (k >= 3: dies while holding) *)
+Definition crash (s : st) (p k : nat) : st :=
+  match k with
+  | 0 => fst (kill1 s p)
+  | 1 => fst (kill1 (fst (step s (Test p))) p)
+  | 2 => match step s (Test p) with
+         | (s1, Granted) => fst (kill1 (fst (step s1 (Create p))) p)
+         | (s1, _) => fst (kill1 s1 p)
+         end
+  | _ => fst (kill1 (fst (open_atomic s p)) p)
+  end.
+
+Inductive aev := AOpen (p : nat) | AClose (p : nat) | AKill (p : nat) | AFail (p : nat) | ACrash (p k : nat).
 Definition astep (s : st) (e : aev) : st :=
-  match e with AOpen p => fst (open_atomic s p) | AClose p => fst (step s (Close p)) | AKill p => fst (step s (Kill p)) end.
+  match e with
+  | AOpen p => fst (open_atomic s p)
+  | AClose p => fst (close1 s p)
+  | AKill p => fst (kill1 s p)
+  | AFail p => fst (step s (Fail p))
+  | ACrash p k => crash s p k
+  end.
+Definition actor (e : aev) : nat := match e with AOpen p | AClose p | AKill p | AFail p | ACrash p _ => p end.
+Definition opens (e : aev) : bool := match e with AOpen _ | ACrash _ _ => true | _ => false end.
+(* a pid is not reused: a process that is gone does not open again *)
+Definition aok (s : st) (e : aev) : bool := negb (opens e) || negb (mem (actor e) (dead s)).
+Fixpoint arun (s : st) (es : list aev) : st := match es with [] => s | e :: t => arun (astep s e) t end.
+Fixpoint aoks (s : st) (es : list aev) : bool := match es with [] => true | e :: t => aok s e && aoks (astep s e) t end.
+Inductive areach : st -> Prop :=
+| ar0 : areach st0
+| ar_step s e : areach s -> aok s e = true -> areach (astep s e).
 
-(* invariant of the atomic protocol: every holder is alive and is the one named in the lock file *)
-Definition inv (s : st) := ready s = [] /\ forall p, In p (holders s) -> lockf s = Some p /\ mem p (dead s) = false.
+(* invariant of the atomic protocol: nobody is half-way through an open, every holder is alive and is the one
+   named in the lock file, and there is at most one *)
+Definition inv (s : st) :=
+  ready s = [] /\ created s = [] /\
+  (forall p, In p (holders s) -> lockf s = Some (LPid p) /\ mem p (dead s) = false) /\
+  length (holders s) <= 1.
 
 Lemma mem_In p l : mem p l = true <-> In p l.
 Proof. unfold mem. rewrite existsb_exists. split; [intros (x & H & E); apply Nat.eqb_eq in E; now subst|intros H; exists p; split; auto; apply Nat.eqb_refl]. Qed.
+Lemma mem_cons p x l : mem p (x :: l) = Nat.eqb p x || mem p l.
+Proof. reflexivity. Qed.
 Lemma In_rm x p l : In x (rm p l) <-> In x l /\ x <> p.
 Proof. unfold rm. rewrite filter_In, negb_true_iff, Nat.eqb_neq. tauto. Qed.
+Lemma rm_nil p : rm p [] = [].
+Proof. reflexivity. Qed.
+Lemma mem_nil p : mem p [] = false.
+Proof. reflexivity. Qed.
+Lemma rm_self p : rm p [p] = [].
+Proof. unfold rm. cbn. rewrite Nat.eqb_refl. reflexivity. Qed.
+Lemma rm_one p h : rm p [h] = if Nat.eqb h p then [] else [h].
+Proof. unfold rm. cbn. destruct (Nat.eqb h p); reflexivity. Qed.
+Lemma mem_self p : mem p [p] = true.
+Proof. unfold mem. cbn. rewrite Nat.eqb_refl. reflexivity. Qed.
 
-Lemma open_atomic_cases s p : ready s = [] ->
+Arguments mem : simpl never.
+Arguments rm : simpl never.
+Ltac norm := repeat (cbn; rewrite ?mem_self, ?mem_nil, ?rm_self, ?rm_nil, ?Nat.eqb_refl).
+
+(* under the invariant the state has one of two shapes *)
+Lemma inv_shape l d hs r c : inv (mkst l d hs r c) ->
+  r = [] /\ c = [] /\ (hs = [] \/ exists h, hs = [h] /\ l = Some (LPid h) /\ mem h d = false).
+Proof.
+  intros (R & C & H & N). cbn in *. subst r c. split; [reflexivity|]. split; [reflexivity|].
+  destruct hs as [|h [|h2 t]]; cbn in N; [left; auto| |lia].
+  right. exists h. destruct (H h (or_introl eq_refl)) as [E D]. subst l. auto.
+Qed.
+
+Lemma inv_free d l : inv (mkst l d [] [] []).
+Proof. unfold inv. cbn. split; [reflexivity|]. split; [reflexivity|]. split; [intros p []|lia]. Qed.
+Lemma inv_held d h : mem h d = false -> inv (mkst (Some (LPid h)) d [h] [] []).
+Proof. intros D. unfold inv. cbn. split; [reflexivity|]. split; [reflexivity|]. split; [intros p [<-|[]]; auto|lia]. Qed.
+
+Lemma open_atomic_cases s p : ready s = [] -> created s = [] ->
   open_atomic s p = match lockf s with
-                    | Some q => if mem q (dead s) then (granted s p, Granted) else (s, Refused q)
+                    | Some (LPid q) => if mem q (dead s) then (granted s p, Granted) else (s, Refused q)
+                    | Some LTorn => (granted s p, Granted)
                     | None => (granted s p, Granted)
                     end.
-Proof. intros R. unfold open_atomic, granted. cbn [step]. destruct (lockf s) as [q|]; [destruct (mem q (dead s))|]; cbn; rewrite ?R; unfold mem, rm; cbn; rewrite ?Nat.eqb_refl; cbn; reflexivity. Qed.
+Proof.
+  intros R C. unfold open_atomic, granted. cbn [step].
+  destruct (lockf s) as [[q|]|]; [destruct (mem q (dead s))| |]; cbn; rewrite ?R, ?C; norm; reflexivity.
+Qed.
 
-Lemma inv_astep s e : (forall p, e = AOpen p -> mem p (dead s) = false) -> inv s -> inv (astep s e).
-Proof. intros Hlive [R H]. destruct e as [p|p|p]; cbn [astep].
-  - specialize (Hlive p eq_refl). rewrite (open_atomic_cases s p R). destruct (lockf s) as [q|] eqn:L.
-    + destruct (mem q (dead s)) eqn:D; cbn [fst]; [|split; [exact R|intros x Hx; rewrite L; now apply H]].
-      split; [reflexivity|]. cbn [holders lockf dead granted].
-      intros x [<-|Hx]; [split; auto|]. destruct (H x Hx) as [E E']. inversion E; subst. congruence.
-    + cbn [fst]. split; [reflexivity|]. cbn [holders lockf dead granted].
-      intros x [<-|Hx]; [split; auto|]. destruct (H x Hx) as [E _]. discriminate.
-  - cbn [step]. destruct (mem p (holders s)) eqn:M; cbn; [|now split]. split; [exact R|].
-    intros x Hx. apply In_rm in Hx as [Hx Hne]. destruct (H x Hx) as [E _]. apply mem_In in M. destruct (H p M) as [E' _]. congruence.
-  - cbn [step fst]. split; [cbn [ready]; rewrite R; reflexivity|]. cbn [holders lockf dead]. intros x Hx. apply In_rm in Hx as [Hx Hne]. destruct (H x Hx) as [E D]. split; [exact E|].
-    unfold mem in *. cbn [existsb]. apply Nat.eqb_neq in Hne. rewrite Hne. exact D. Qed.
+Ltac shape s H := let l := fresh "l" in let d := fresh "d" in let hs := fresh "hs" in let r := fresh "r" in let c := fresh "c" in
+  let h := fresh "h" in let D := fresh "D" in
+  destruct s as [l d hs r c]; apply inv_shape in H as (-> & -> & [-> | (h & -> & -> & D)]).
+Lemma kill_held d h p : mem h d = false -> inv (mkst (Some (LPid h)) (p :: d) (rm p [h]) [] []).
+Proof.
+  intros D. rewrite rm_one. destruct (Nat.eqb h p) eqn:Q; [apply inv_free|].
+  apply inv_held. rewrite mem_cons, D, Q. reflexivity.
+Qed.
+Lemma inv_kill s p : inv s -> inv (fst (kill1 s p)).
+Proof. intros I. shape s I; cbn; [apply inv_free|now apply kill_held]. Qed.
+Lemma inv_close s p : inv s -> inv (fst (close1 s p)).
+Proof.
+  intros I. shape s I; unfold close1; cbn; [apply inv_free|].
+  rewrite mem_cons, mem_nil, orb_false_r. destruct (Nat.eqb p h) eqn:Q; cbn; [|apply inv_held; auto].
+  apply Nat.eqb_eq in Q. subst. rewrite rm_self. apply inv_free.
+Qed.
+Lemma inv_open s p : mem p (dead s) = false -> inv s -> inv (fst (open_atomic s p)).
+Proof.
+  intros A I. assert (I' := I). destruct I' as (R & C & _). rewrite (open_atomic_cases s p R C). shape s I; cbn in *.
+  - destruct l as [[q|]|]; [destruct (mem q d)| |]; cbn; try (apply inv_held; exact A); apply inv_free.
+  - rewrite D. cbn. apply inv_held; auto.
+Qed.
+Lemma inv_crash s p k : mem p (dead s) = false -> inv s -> inv (crash s p k).
+Proof.
+  intros A I. destruct k as [|[|[|k]]]; unfold crash.
+  - now apply inv_kill.
+  - shape s I; cbn in *.
+    + destruct l as [[q|]|]; [destruct (mem q d)| |]; norm; apply inv_free.
+    + rewrite D. cbn. now apply kill_held.
+  - shape s I; cbn in *.
+    + destruct l as [[q|]|]; [destruct (mem q d)| |]; norm; apply inv_free.
+    + rewrite D. cbn. now apply kill_held.
+  - apply inv_kill. now apply inv_open.
+Qed.
 
-(* mutual exclusion: at most one holder (as a set) *)
-Theorem C19_mutex s p q : inv s -> In p (holders s) -> In q (holders s) -> p = q.
-Proof. intros [_ H] Hp Hq. destruct (H p Hp) as [E _], (H q Hq) as [E' _]. congruence. Qed.
+Lemma inv_astep s e : aok s e = true -> inv s -> inv (astep s e).
+Proof.
+  intros A I. destruct e as [p|p|p|p|p k]; cbn [astep].
+  - apply inv_open; auto. unfold aok in A. cbn in A. now apply negb_true_iff in A.
+  - now apply inv_close.
+  - now apply inv_kill.
+  - cbn [step]. apply inv_kill. now apply inv_close.
+  - apply inv_crash; auto. unfold aok in A. cbn in A. now apply negb_true_iff in A.
+Qed.
 
-Theorem C19_refuse s p q : lockf s = Some q -> mem q (dead s) = false -> open_atomic s p = (s, Refused q).
+Lemma inv_st0 : inv st0.
+Proof. apply inv_free. Qed.
+Lemma inv_areach s : areach s -> inv s.
+Proof. induction 1; [apply inv_st0|now apply inv_astep]. Qed.
+Lemma inv_arun es : forall s, aoks s es = true -> inv s -> inv (arun s es).
+Proof. induction es as [|e t IH]; intros s A I; cbn in *; auto. apply andb_true_iff in A as [A1 A2]. apply IH; auto. now apply inv_astep. Qed.
+
+(* ---------- mutual exclusion ---------- *)
+Lemma mutex_inv s p q : inv s -> In p (holders s) -> In q (holders s) -> p = q.
+Proof. intros (_ & _ & H & _) Hp Hq. destruct (H p Hp) as [E _], (H q Hq) as [E' _]. congruence. Qed.
+Lemma mutex_reach s p q : areach s -> In p (holders s) -> In q (holders s) -> p = q.
+Proof. intros R. apply mutex_inv. now apply inv_areach. Qed.
+Lemma mutex_count s : areach s -> length (holders s) <= 1.
+Proof. intros R. apply inv_areach in R. apply R. Qed.
+
+(* ---------- refusal ---------- *)
+Lemma refuse_open s p q : lockf s = Some (LPid q) -> mem q (dead s) = false -> open_atomic s p = (s, Refused q).
 Proof. intros L D. unfold open_atomic. cbn [step]. rewrite L, D. reflexivity. Qed.
 
-Theorem C19_stale s p q : inv s -> lockf s = Some q -> mem q (dead s) = true ->
-  snd (open_atomic s p) = Granted /\ lockf (fst (open_atomic s p)) = Some p.
-Proof. intros [R _] L D. rewrite (open_atomic_cases s p R), L, D. cbn. auto. Qed.
+(* ---------- stale lock, clean close ---------- *)
+Lemma stale_open s p q : inv s -> lockf s = Some (LPid q) -> mem q (dead s) = true ->
+  snd (open_atomic s p) = Granted /\ lockf (fst (open_atomic s p)) = Some (LPid p) /\ In p (holders (fst (open_atomic s p))).
+Proof. intros (R & C & _) L D. rewrite (open_atomic_cases s p R C), L, D. cbn. auto. Qed.
 
-(* the two-step open of the code allows a schedule with two simultaneous holders *)
-Definition run (es : list ev) := fold_left (fun s e => fst (step s e)) es st0.
-Theorem C19_toctou_refuted : exists es, holders (run es) = [2; 1] /\ dead (run es) = [].
-Proof. exists [Test 1; Test 2; Write 1; Write 2]. vm_compute. auto. Qed.
-(* ... after which a clean close by one removes the lock of the other, still live, process *)
-Theorem C19_removes_live_lock_refuted : exists es, holders (run es) = [2] /\ lockf (run es) = None /\ dead (run es) = [].
-Proof. exists [Test 1; Test 2; Write 1; Write 2; Close 1]. vm_compute. auto. Qed.
-Print Assumptions C19_mutex.
+Lemma free_after_close s p q : inv s -> In q (holders s) ->
+  let s1 := astep s (AClose q) in
+  snd (open_atomic s1 p) = Granted /\ lockf (fst (open_atomic s1 p)) = Some (LPid p) /\ holders (fst (open_atomic s1 p)) = [p].
+Proof.
+  intros I Hq. shape s I; cbn in Hq; [tauto|]. destruct Hq as [<-|[]].
+  cbn. unfold close1. cbn. rewrite mem_self. cbn. rewrite rm_self. unfold open_atomic. cbn.
+  rewrite ?mem_self, ?Nat.eqb_refl. cbn. rewrite ?Nat.eqb_refl. cbn. auto.
+Qed.
+(* the same when the holder ends through an error path or the signal cleaner *)
+Lemma free_after_fail s p q : inv s -> In q (holders s) ->
+  let s1 := astep s (AFail q) in
+  snd (open_atomic s1 p) = Granted /\ lockf (fst (open_atomic s1 p)) = Some (LPid p) /\ holders (fst (open_atomic s1 p)) = [p].
+Proof.
+  intros I Hq. shape s I; cbn in Hq; [tauto|]. destruct Hq as [<-|[]].
+  cbn. unfold close1. cbn. rewrite mem_self. cbn. rewrite rm_self. unfold open_atomic. cbn.
+  rewrite ?mem_self, ?Nat.eqb_refl. cbn. rewrite ?Nat.eqb_refl. cbn. auto.
+Qed.
+
+(* an empty lock file (left by the pinned tree's two-step write) is cleaned like a stale one *)
+Lemma torn_open s p : inv s -> lockf s = Some LTorn ->
+  snd (open_atomic s p) = Granted /\ lockf (fst (open_atomic s p)) = Some (LPid p) /\ In p (holders (fst (open_atomic s p))).
+Proof. intros (R & C & _) L. rewrite (open_atomic_cases s p R C), L. cbn. auto. Qed.
+
+(* no step of the protocol, in any interleaving, produces a lock file without a pid *)
+Lemma no_torn_step s e : fixed_ev e = true -> lockf (fst (step s e)) = Some LTorn -> lockf s = Some LTorn.
+Proof.
+  Ltac fin := cbn; intros H; first [discriminate H | exact H | reflexivity].
+  destruct e as [p|p|p|p|p|p|p|p]; cbn; try discriminate; intros _.
+  - destruct (lockf s) as [[q|]|] eqn:L; [destruct (mem q (dead s))| |]; unfold test_free; cbn; intros H;
+      first [discriminate H | reflexivity | rewrite L in H; discriminate H].
+  - destruct (mem p (ready s)); fin.
+  - destruct (mem p (created s)); fin.
+  - unfold close1. destruct (mem p (holders s)); fin.
+  - auto.
+  - unfold close1. destruct (mem p (holders s)); fin.
+Qed.
+Lemma no_torn_run es : forall s, forallb fixed_ev es = true -> lockf (run_from s es) = Some LTorn -> lockf s = Some LTorn.
+Proof.
+  induction es as [|e t IH]; intros s F H; cbn in *; auto.
+  apply andb_true_iff in F as [F1 F2]. apply (no_torn_step s e F1). apply IH; auto.
+Qed.
+Lemma no_torn es : forallb fixed_ev es = true -> lockf (run es) <> Some LTorn.
+Proof. intros F H. apply (no_torn_run es st0 F) in H. discriminate. Qed.
+
+(* ---------- the lock of a live process is never removed by anybody else ---------- *)
+Lemma dead_kill s p : dead (fst (kill1 s p)) = p :: dead s.
+Proof. reflexivity. Qed.
+Lemma dead_close s p : dead (fst (close1 s p)) = dead s.
+Proof. unfold close1. destruct (mem p (holders s)); reflexivity. Qed.
+Lemma dead_test s p : dead (fst (step s (Test p))) = dead s.
+Proof. cbn. destruct (lockf s) as [[q|]|]; [destruct (mem q (dead s))| |]; reflexivity. Qed.
+Lemma dead_create s p : dead (fst (step s (Create p))) = dead s.
+Proof. cbn. destruct (mem p (ready s)); reflexivity. Qed.
+Lemma dead_write s p : dead (fst (step s (Write p))) = dead s.
+Proof. cbn. destruct (mem p (created s)); reflexivity. Qed.
+Lemma dead_open s p : dead (fst (open_atomic s p)) = dead s.
+Proof.
+  unfold open_atomic. destruct (step s (Test p)) as [s1 o] eqn:E.
+  assert (D1 : dead s1 = dead s) by (rewrite <- (dead_test s p), E; reflexivity).
+  destruct o; cbn [fst]; rewrite ?dead_write, ?dead_create; exact D1.
+Qed.
+Lemma mem_cons_true x p d : mem x (p :: d) = true -> x = p \/ mem x d = true.
+Proof. rewrite mem_cons. destruct (Nat.eqb x p) eqn:Q; [apply Nat.eqb_eq in Q; auto|auto]. Qed.
+
+Lemma dead_astep s e x : mem x (dead (astep s e)) = true -> x = actor e \/ mem x (dead s) = true.
+Proof.
+  destruct e as [p|p|p|p|p k]; cbn [astep actor].
+  - rewrite dead_open. auto.
+  - rewrite dead_close. auto.
+  - rewrite dead_kill. apply mem_cons_true.
+  - cbn [step]. rewrite dead_kill, dead_close. apply mem_cons_true.
+  - destruct k as [|[|[|k]]]; unfold crash.
+    + rewrite dead_kill. apply mem_cons_true.
+    + rewrite dead_kill, dead_test. apply mem_cons_true.
+    + destruct (step s (Test p)) as [s1 o] eqn:E.
+      assert (D1 : dead s1 = dead s) by (rewrite <- (dead_test s p), E; reflexivity).
+      destruct o; rewrite dead_kill, ?dead_create, D1; apply mem_cons_true.
+    + rewrite dead_kill, dead_open. apply mem_cons_true.
+Qed.
+
+Lemma live_lock_step s e q : inv s -> aok s e = true -> lockf s = Some (LPid q) -> mem q (dead s) = false ->
+  actor e <> q -> lockf (astep s e) = Some (LPid q).
+Proof.
+  intros I A L D Ne. assert (I' := I). destruct I' as (R & C & H & _).
+  destruct e as [p|p|p|p|p k]; cbn [astep actor] in *.
+  - rewrite (refuse_open s p q L D). exact L.
+  - unfold close1. destruct (mem p (holders s)) eqn:M; cbn; auto.
+    apply mem_In in M. destruct (H p M) as [E _]. congruence.
+  - exact L.
+  - cbn. unfold close1. destruct (mem p (holders s)) eqn:M; cbn; auto.
+    apply mem_In in M. destruct (H p M) as [E _]. congruence.
+  - destruct k as [|[|[|k]]]; unfold crash; cbn [step]; rewrite ?(refuse_open s p q L D); rewrite ?L, ?D; cbn; auto.
+Qed.
+
+Lemma live_lock_run es : forall s q, inv s -> aoks s es = true -> lockf s = Some (LPid q) -> mem q (dead s) = false ->
+  (forall e, In e es -> actor e <> q) -> lockf (arun s es) = Some (LPid q).
+Proof.
+  induction es as [|e t IH]; intros s q I A L D N; cbn in *; auto.
+  apply andb_true_iff in A as [A1 A2]. apply IH; auto.
+  - now apply inv_astep.
+  - apply (live_lock_step s e q); auto.
+  - destruct (mem q (dead (astep s e))) eqn:M; auto. apply dead_astep in M as [M|M]; [|congruence].
+    exfalso. apply (N e); auto.
+Qed.
+
+(* ---------- several processes starting at the same moment ----------
+   repoIsAvailable itself is two steps: read the lock file and decide, then (stale or empty) remove it; the
+   temporary file of Create touches nothing shared, so Create ; Write is one step here. A member whose open is
+   refused, or whose Remove finds the file already gone, exits. *)
+Inductive bout := BGo | BRefused (q : nat) | BRemoveErr.
+Record bm := mkbm { b_id : nat; b_pc : nat; b_out : bout }.   (* pc 0: read; 1: remove; 2: write; 3: holds; 4: exited with b_out *)
+Definition badvance (s : st) (m : bm) : st * bm :=
+  let id := b_id m in
+  match b_pc m with
+  | 0 => match lockf s with
+         | None => (s, mkbm id 2 BGo)
+         | Some (LPid q) => if mem q (dead s) then (s, mkbm id 1 BGo) else (fst (kill1 s id), mkbm id 4 (BRefused q))
+         | Some LTorn => (s, mkbm id 1 BGo)
+         end
+  | 1 => match lockf s with
+         | None => (fst (kill1 s id), mkbm id 4 BRemoveErr)       (* somebody else removed it in between *)
+         | Some _ => (unlink s, mkbm id 2 BGo)                     (* removes whatever is there now *)
+         end
+  | 2 => (mkst (Some (LPid id)) (dead s) (id :: holders s) (ready s) (created s), mkbm id 3 BGo)
+  | _ => (s, m)
+  end.
+Definition badv3 (s : st) (p : nat) : st * bm :=
+  let '(s1, m1) := badvance s (mkbm p 0 BGo) in let '(s2, m2) := badvance s1 m1 in badvance s2 m2.
+
+(* a member running alone does exactly the atomic open (and is gone if refused) *)
+Lemma badv3_alone s p : ready s = [] -> created s = [] ->
+  match open_atomic s p with
+  | (s', Granted) => fst (badv3 s p) = s' /\ b_pc (snd (badv3 s p)) = 3
+  | (s', Refused q) => fst (badv3 s p) = fst (kill1 s' p) /\ b_out (snd (badv3 s p)) = BRefused q /\ b_pc (snd (badv3 s p)) = 4
+  | _ => True
+  end.
+Proof.
+  intros R C. rewrite (open_atomic_cases s p R C). unfold badv3, granted. destruct s as [l d hs r c]. cbn in R, C. subst r c.
+  destruct l as [[q|]|]; cbn; [destruct (mem q d) eqn:D; cbn; rewrite ?D; cbn| |]; auto.
+Qed.
+
+(* ---------- the command wrapper ---------- *)
+Inductive family := FBackend      (* PreRunE LoadBackend, RunE CloseBackend(...) *)
+                  | FEnsureUser   (* PreRunE LoadBackendEnsureUser, RunE CloseBackend(...) *)
+                  | FWebui.       (* PreRunE LoadRepo; runWebUI opens and closes the cache itself *)
+Inductive path := EarlyErr     (* fails before the cache is opened: flag parsing, not a repository, webui without identity *)
+                | PreErr       (* fails after the lock was taken, before the command body: cache build error, no identity *)
+                | RunErr       (* the command body fails (for webui: the server cannot listen) *)
+                | Success
+                | Signalled.   (* SIGINT / SIGTERM once running: interrupt cleaner, webui teardown *)
+
+(* which exit paths call RepoCache.Close; [on_refused]: Close is also called when the open itself was refused *)
+Record wrapper := mkw { closes : family -> path -> bool; on_refused : bool }.
+(* the wrapper as it should be, and as it is once the fixes/C19-*.patch repairs are applied *)
+Definition fixed : wrapper := mkw (fun _ _ => true) false.
+(* the pinned tree: three error paths return without closing *)
+Definition pinned : wrapper :=
+  mkw (fun f pa => match f, pa with
+                   | _, PreErr => false              (* LoadBackend on a cache build error; LoadBackendEnsureUser without identity; webui on a build error *)
+                   | FWebui, RunErr => false         (* ListenAndServe fails *)
+                   | _, _ => true end) false.
+(* a tempting repair: close the backend whenever LoadBackend fails, including when the lock was refused *)
+Definition close_always : wrapper := mkw (fun _ _ => true) true.
+
+Definition command (w : wrapper) (f : family) (pa : path) (s : st) (p : nat) : st * out :=
+  match pa with
+  | EarlyErr => (fst (kill1 s p), Done)
+  | _ => match open_atomic s p with
+         | (s1, Granted) => if closes w f pa then (fst (step s1 (Fail p)), Granted) else (fst (kill1 s1 p), Granted)
+         | (s1, o) => (fst (kill1 (if on_refused w then unlink s1 else s1) p), o)
+         end
+  end.
+
+Lemma command_fixed_asteps f pa s p : inv s ->
+  fst (command fixed f pa s p) = match pa with EarlyErr => astep s (AKill p) | _ =>
+     match snd (open_atomic s p) with Granted => astep (astep s (AOpen p)) (AFail p) | _ => astep (astep s (AOpen p)) (AKill p) end end.
+Proof.
+  intros I. unfold command. destruct pa; try reflexivity; cbn [astep closes fixed on_refused];
+  destruct (open_atomic s p) as [s1 o]; destruct o; reflexivity.
+Qed.
+
+Lemma kill_not_holder s p : ~ In p (holders (fst (kill1 s p))).
+Proof. cbn. intros H. apply In_rm in H. tauto. Qed.
+
+Lemma release_all_paths f pa s p : inv s -> mem p (dead s) = false -> ~ In p (holders s) -> lockf s <> Some (LPid p) ->
+  let s' := fst (command fixed f pa s p) in
+  inv s' /\ ~ In p (holders s') /\ lockf s' <> Some (LPid p) /\ mem p (dead s') = true.
+Proof.
+  intros I A NH NL s'. split.
+  { subst s'. rewrite (command_fixed_asteps f pa s p I).
+    assert (O : aok s (AOpen p) = true) by (unfold aok; cbn; rewrite A; reflexivity).
+    destruct pa; try (apply inv_astep; [reflexivity|exact I]);
+      destruct (snd (open_atomic s p)); (apply inv_astep; [reflexivity|]; apply inv_astep; [exact O|exact I]). }
+  assert (I' := I). destruct I' as (R & C & _). subst s'. unfold command.
+  assert (E : forall s1 : st, lockf s1 = lockf s ->
+             ~ In p (holders (fst (kill1 s1 p))) /\ lockf (fst (kill1 s1 p)) <> Some (LPid p) /\ mem p (dead (fst (kill1 s1 p))) = true).
+  { intros s1 L. split; [apply kill_not_holder|]. split; [cbn; congruence|]. cbn. rewrite mem_cons, Nat.eqb_refl. reflexivity. }
+  assert (G : ~ In p (holders (fst (step (granted s p) (Fail p)))) /\ lockf (fst (step (granted s p) (Fail p))) <> Some (LPid p) /\
+              mem p (dead (fst (step (granted s p) (Fail p)))) = true).
+  { cbn [step]. split; [apply kill_not_holder|]. unfold close1, granted. cbn. rewrite mem_cons, Nat.eqb_refl. cbn.
+    split; [discriminate|]. rewrite mem_cons, Nat.eqb_refl. reflexivity. }
+  destruct pa; cbn [closes fixed on_refused]; try (apply E; reflexivity);
+    rewrite (open_atomic_cases s p R C); destruct (lockf s) as [[q|]|] eqn:L; try destruct (mem q (dead s)); cbn [fst]; try exact G; apply E; exact L.
+Qed.
+
+(* a refused command leaves everything as it was, except that the process is gone *)
+Lemma refuse_command f pa s p q : pa <> EarlyErr -> lockf s = Some (LPid q) -> mem q (dead s) = false -> p <> q ->
+  let r := command fixed f pa s p in
+  snd r = Refused q /\ lockf (fst r) = Some (LPid q) /\ mem q (dead (fst r)) = false /\
+  (In q (holders s) -> In q (holders (fst r))).
+Proof.
+  intros NE L D Npq. unfold command. destruct pa; try congruence; rewrite (refuse_open s p q L D); cbn [fst snd on_refused fixed kill1 lockf dead holders];
+  (split; [reflexivity|]; split; [exact L|]; split;
+   [rewrite mem_cons, D; apply Nat.eqb_neq in Npq; rewrite Nat.eqb_sym, Npq; reflexivity|intros Hq; apply In_rm; auto]).
+Qed.
+
+(* ---------- what the faithful models of the defective variants do ---------- *)
+Lemma toctou_refuted : exists es, forallb fixed_ev es = true /\ holders (run es) = [2; 1] /\ dead (run es) = [].
+Proof. exists [Test 1; Test 2; Create 1; Write 1; Create 2; Write 2]. vm_compute. auto. Qed.
+Lemma removes_live_lock_refuted : exists es, holders (run es) = [2] /\ lockf (run es) = None /\ dead (run es) = [].
+Proof. exists [Test 1; Test 2; Create 1; Write 1; Create 2; Write 2; Close 1]. vm_compute. auto. Qed.
+(* the pinned tree: a process that dies between creating the lock file and writing its pid leaves a lock
+   that refuses everybody, for ever (the state does not change) *)
+Lemma torn_lock_refuted : exists es, dead (run es) = [1] /\ holders (run es) = [] /\ lockf (run es) = Some LTorn /\
+  forall p, step (run es) (TestPinned p) = (run es, Corrupt).
+Proof. exists [TestPinned 1; CreatePinned 1; Kill 1]. vm_compute. auto. Qed.
+(* the pinned wrapper leaves the lock of a finished command behind on three paths *)
+Lemma pinned_leaks_refuted :
+  lockf (fst (command pinned FEnsureUser PreErr st0 1)) = Some (LPid 1) /\
+  lockf (fst (command pinned FBackend PreErr st0 1)) = Some (LPid 1) /\
+  lockf (fst (command pinned FWebui RunErr st0 1)) = Some (LPid 1) /\
+  mem 1 (dead (fst (command pinned FWebui RunErr st0 1))) = true.
+Proof. vm_compute. auto. Qed.
+(* closing the backend when the open was refused removes the lock of the live holder *)
+Lemma close_on_refusal_refuted : exists s, inv s /\ lockf s = Some (LPid 1) /\ In 1 (holders s) /\
+  let s' := fst (command close_always FBackend Success s 2) in
+  lockf s' = None /\ In 1 (holders s') /\ mem 1 (dead s') = false.
+Proof.
+  exists (fst (open_atomic st0 1)). split; [apply (inv_held [] 1); reflexivity|]. vm_compute. repeat split; auto.
+Qed.
